@@ -80,6 +80,10 @@ SpecStep(e) ==
                  /\ UNCHANGED <<disks, headN, chain, loc, snapIdx, holeQ, size, open, mode,
                                 rebuilding, dirty, rev, checkpoint, punch, preload, cleaner,
                                 ref, usnap>>
+      [] e.ev = "BurstEnd"      -> /\ Called("BurstEnd", << >>) /\ res' = "ok" /\ out' = <<>>
+                                   /\ UNCHANGED <<disks, headN, chain, loc, snapIdx, holeQ, size, open, mode,
+                                                  rebuilding, dirty, rev, checkpoint, punch, preload, cleaner,
+                                                  ref, usnap>>
       [] e.ev = "Coalesce"      -> Coalesce(e.a.name)
       [] e.ev = "RemoveDisk"    -> RemoveDisk(e.a.name)
       [] e.ev = "Revert"        -> Revert(e.a.name)
@@ -116,6 +120,15 @@ Apply ==
             /\ Fail({"Hang"})
             /\ skipping' = TRUE /\ l' = l + 1
             /\ UNCHANGED <<vars, phase, ntraces, pre>>
+       ELSE IF ENABLED SpecStep(E) /\ E.partial THEN
+            \* one of several concurrent calls: applied, only its result is compared here;
+            \* the burst's closing record carries the state
+            /\ SpecStep(E)
+            /\ pre' = Snap
+            /\ l' = l + 1
+            /\ IF E.res # res' THEN Fail({"Result"}) /\ skipping' = TRUE
+               ELSE UNCHANGED <<failed, skipping>>
+            /\ UNCHANGED <<phase, ntraces>>
        ELSE IF ENABLED SpecStep(E) THEN
             /\ SpecStep(E)
             /\ pre' = Snap
@@ -175,6 +188,9 @@ Rules(e, d2) ==
           THEN {"ReadData"} ELSE {})
     \cup (IF e.ev = "CleanerPick" /\ open /\ e.res = "ok" /\ Range(e.cand) # Candidates(checkpoint)
           THEN {"Candidates"} ELSE {})
+    \* concurrency observations
+    \cup (IF e.ev = "BurstEnd" /\ e.x.backwards > 0 THEN {"RevBackwards"} ELSE {})
+    \cup (IF e.ev = "Open" /\ "oks" \in DOMAIN e.x /\ e.x.oks > 1 THEN {"OpenTwice"} ELSE {})
     \* the properties themselves, evaluated on the adopted directory
     \cup (IF open /\ \E b \in SizeBlocks : ImageAt(chain, d2, Len(chain))[b] # ref[b]
           THEN {"LiveIsRef"} ELSE {})
